@@ -3,8 +3,9 @@
    class, then parse as T), exactly as pane.convert does.
    Full statement (kept visible): forall t v x, wf_ty t -> no external/adjacent tag in t ->
        tc t v = Ok x -> exists d, into_auto x = Ok d /\ tc t d = Ok x.
-   Proved: the statement on the core fragment [rt_ty] (_partial), and idempotence
-   there.  pane.types.Range and ValueOrList are recorded findings (known_findings.json). *)
+   Proved: the statement on the fragment [rt_ty] of C05 (scalars, None, scalar literals,
+   lists, tuples, conditions, kind-disjoint unions; _partial), idempotence there, and that
+   a typed value offered as data is accepted unchanged.  pane.types.Range and ValueOrList are recorded findings (known_findings.json). *)
 From Coq Require Import List String.
 Require Import Base.Outcome Model.Values Model.Vocab Model.Types Model.Conv Model.Into Lemmas.RoundTrip.
 
@@ -28,3 +29,8 @@ Proof.
   eapply C06_fixed_point_partial; eauto.
 Qed.
 Print Assumptions C06_idempotent_partial.
+(* a value already of the type is itself accepted, unchanged, when offered as data *)
+Theorem C06_typed_value_is_accepted_unchanged_partial : forall t v x,
+  rt_ty t -> tc t v = Ok x -> tc t x = Ok x.
+Proof. exact typed_self_core. Qed.
+Print Assumptions C06_typed_value_is_accepted_unchanged_partial.
